@@ -50,70 +50,101 @@ def argBool (f : List String) (k : String) : Option Bool :=
   | some 1 => some true
   | _ => none
 
+/-- what a step of a history answers -/
+inductive StepRes where
+  | bad
+  | panic
+  /-- the request lies outside what the property promises (ratio outside [0,1], bootstrap from
+  nothing, documented panics): not compared, the history ends -/
+  | unpromised
+  | ok (txt : String) (outs : List D)
+
+def inUnit (r : Float32) : Bool := decide ((0 : Float32) ≤ r) && decide (r ≤ (1 : Float32))
+
+def dump (outs : List D) : String := "+".intercalate (outs.map showDS)
+
+def wrap : Option (List D) → StepRes
+  | none => .panic
+  | some outs => .ok (dump outs) outs
+
+def showFreqs (m : List (Nat × Nat)) : String :=
+  if m.isEmpty then "-" else ",".intercalate ((sortCounts m).map fun (l, c) => s!"{l}*{c}")
+
 /-- one step: the response text of the step and the datasets it returned -/
-def step (name : String) (f : List String) (ds : D) : Option (Option (String × List D)) := do
-  let dump := fun (outs : List D) => "+".intercalate (outs.map showDS)
-  let wrap := fun (r : Option (List D)) => match r with
-    | none => (none : Option (String × List D))
-    | some outs => some (dump outs, outs)
-  match name with
-  | "splitV" =>
-    let r ← (arg f "r").bind parseF32
-    pure (wrap ((splitView (ceilRatio ds.n r) ds).map fun (a, b) => [a, b]))
-  | "splitO" =>
-    let r ← (arg f "r").bind parseF32
-    if ds.counted then none
-    else pure (wrap ((splitOwned (ceilRatio ds.n r) ds).map fun (a, b) => [a, b]))
-  | "shuffle" =>
-    let idx ← argNats f "idx"
-    pure (wrap ((shuffle idx ds).map ([·])))
-  | "boot" =>
-    let ns ← argNat f "ns"; let nf ← argNat f "nf"
-    let idx ← argNats f "idx"; let fidx ← argNats f "fidx"
-    -- the index vectors are read back from the implementation's result; when the call
-    -- panicked there are none, and the model must say "panic" without them
-    match bootstrap ns nf idx fidx ds with
-    | none => pure none
-    | some d => if idx.length = ns ∧ fidx.length = nf then pure (wrap (some [d])) else none
-  | "bootS" =>
-    let ns ← argNat f "ns"; let idx ← argNats f "idx"
-    match bootstrapSamples ns idx ds with
-    | none => pure none
-    | some d => if idx.length = ns then pure (wrap (some [d])) else none
-  | "bootF" =>
-    let nf ← argNat f "nf"; let fidx ← argNats f "fidx"
-    match bootstrapFeatures nf fidx ds with
-    | none => pure none
-    | some d => if fidx.length = nf then pure (wrap (some [d])) else none
-  | "withLabels" =>
-    let labs ← argNats f "labs"
-    pure (wrap ((withLabels labs ds).map ([·])))
-  | "oneVsAll" =>
-    if !ds.ix1 then none
-    else
-      let outs := (oneVsAll ds).map fun (l, d) =>
-        (l, boolDS d)
-      let sorted := (outs.toArray.qsort (fun a b => a.1 < b.1)).toList
-      pure (some ("+".intercalate (sorted.map fun (l, d) => s!"{l}>{showDS d}"), sorted.map (·.2)))
-  | "map" =>
-    let tab ← argNats f "tab"
-    pure (wrap (some [mapTargets (fun c => tab.getD c c) ds]))
-  | "view" => pure (wrap (some [view ds]))
-  | "toOwned" => pure (wrap (some [toOwned ds]))
-  | "intoSingle" => if ds.ix1 ∨ ds.counted then none else pure (wrap ((intoSingleTarget ds).map ([·])))
-  | "sampleIter" =>
-    match sampleIter ds with
-    | none => pure none
-    | some prs =>
-      let s := if prs.isEmpty then "-" else
-        ";".intercalate (prs.map fun (r, g) => s!"{showList toString r}>{showList toString g}")
-      pure (some (s, [ds]))
-  | "featureIter" => pure (wrap (featureIter ds))
-  | "targetIter" => pure (wrap (targetIter ds))
-  | "chunks" =>
-    let size ← argNat f "size"
-    pure (wrap (sampleChunks size ds))
-  | _ => none
+def step (name : String) (f : List String) (ds : D) : StepRes :=
+  let r : Option StepRes := do
+    match name with
+    | "splitV" =>
+      let r ← (arg f "r").bind parseF32
+      if !inUnit r then pure .unpromised
+      else pure (wrap ((splitView (ceilRatio ds.n r) ds).map fun (a, b) => [a, b]))
+    | "splitO" =>
+      let r ← (arg f "r").bind parseF32
+      let std ← argBool f "std"
+      if ds.counted then none
+      else if !inUnit r || !std then pure .unpromised
+      else pure (wrap ((splitOwned std (ceilRatio ds.n r) ds).map fun (a, b) => [a, b]))
+    | "shuffle" =>
+      let idx ← argNats f "idx"
+      pure (wrap ((shuffle idx ds).map ([·])))
+    | "boot" =>
+      let ns ← argNat f "ns"; let nf ← argNat f "nf"
+      let idx ← argNats f "idx"; let fidx ← argNats f "fidx"
+      if (0 < ns ∧ ds.n = 0) ∨ (0 < nf ∧ ds.p = 0) then pure .unpromised
+      else match bootstrap ns nf idx fidx ds with
+        | none => pure .panic
+        | some d => if idx.length = ns ∧ fidx.length = nf then pure (wrap (some [d])) else none
+    | "bootS" =>
+      let ns ← argNat f "ns"; let idx ← argNats f "idx"
+      if 0 < ns ∧ ds.n = 0 then pure .unpromised
+      else match bootstrapSamples ns idx ds with
+        | none => pure .panic
+        | some d => if idx.length = ns then pure (wrap (some [d])) else none
+    | "bootF" =>
+      let nf ← argNat f "nf"; let fidx ← argNats f "fidx"
+      if 0 < nf ∧ ds.p = 0 then pure .unpromised
+      else match bootstrapFeatures nf fidx ds with
+        | none => pure .panic
+        | some d => if fidx.length = nf then pure (wrap (some [d])) else none
+    | "withLabels" =>
+      let labs ← argNats f "labs"
+      pure (wrap ((withLabels labs ds).map ([·])))
+    | "oneVsAll" =>
+      if !ds.ix1 then none
+      else
+        let outs := (oneVsAll ds).map fun (l, d) =>
+          (l, boolDS d)
+        let sorted := (outs.toArray.qsort (fun a b => a.1 < b.1)).toList
+        pure (.ok ("+".intercalate (sorted.map fun (l, d) => s!"{l}>{showDS d}")) (sorted.map (·.2)))
+    | "map" =>
+      let tab ← argNats f "tab"
+      pure (wrap (some [mapTargets (fun c => tab.getD c c) ds]))
+    | "view" => pure (wrap (some [view ds]))
+    | "toOwned" => pure (wrap (some [toOwned ds]))
+    | "intoSingle" =>
+      if ds.ix1 ∨ ds.counted then none
+      else if ds.t ≠ 1 then pure .unpromised
+      else pure (wrap ((intoSingleTarget ds).map ([·])))
+    | "sampleIter" =>
+      match sampleIter ds with
+      | none => pure .panic
+      | some prs =>
+        let s := if prs.isEmpty then "-" else
+          ";".intercalate (prs.map fun (r, g) => s!"{showList toString r}>{showList toString g}")
+        pure (.ok s [ds])
+    | "featureIter" => pure (wrap (featureIter ds))
+    | "targetIter" => pure (wrap (targetIter ds))
+    | "chunks" =>
+      let size ← argNat f "size"
+      if size = 0 then pure .unpromised else pure (wrap (sampleChunks size ds))
+    | "weightFor" =>
+      -- `weight_for(i)` for `i = 0 .. n+1` (two positions past the end)
+      pure (.ok (showList toString ((List.range (ds.n + 2)).map (weightFor 1 ds))) [ds])
+    | "labelFreq" =>
+      let mask ← argNats f "mask"
+      pure (.ok (showFreqs (labelFreqsWithMask 0 1 (mask.map (· != 0)) ds)) [ds])
+    | _ => none
+  r.getD .bad
 
 /-- runs the steps; the response lists every step's outputs; a panic ends the history -/
 def runSteps : List String → D → List String → Option (List String)
@@ -123,9 +154,10 @@ def runSteps : List String → D → List String → Option (List String)
     | [] => none
     | name :: f =>
       match step name f ds with
-      | none => none
-      | some none => some ((s!"{name}:panic") :: acc).reverse
-      | some (some (txt, outs)) =>
+      | .bad => none
+      | .panic => some ((s!"{name}:panic") :: acc).reverse
+      | .unpromised => some ((s!"{name}:unpromised") :: acc).reverse
+      | .ok txt outs =>
         match argNat f "pick" with
         | none => none
         | some k =>
@@ -157,6 +189,8 @@ def handle (toks : List String) : String :=
   let r := match toks with
     | "seq" :: rest => handleSeq rest
     | "ceil" :: rest => handleCeil rest
+    -- the owned split computes the same expression (and panics beyond the last sample)
+    | "ceilo" :: rest => handleCeil rest
     | _ => none
   r.getD "bad-op"
 
